@@ -48,6 +48,8 @@ HIST_MISMATCH = {
 for _p in ("C01", "C02", "C03", "C05", "C07", "C08", "C11", "C14"):
     CODES.setdefault(_p, {}).update(HIST_MISMATCH)
 CODES["C01"].update({
+    "2:11": "a concurrent reader saw a state listed active with an even tick (or inactive with an odd tick) in one StringAll() sample",
+    "2:14": "a concurrent reader saw a tick decrease",
     "2:1": "tick parity does not match the active states after a call",
     "2:2": "tick parity does not match the active states inside a handler",
     "2:3": "a transition's TimeBefore parity does not match StatesBefore",
